@@ -35,8 +35,8 @@ func main() {
 	out := flag.String("out", "", "output JSON file (default stdout)")
 	workers := flag.Int("workers", runtime.NumCPU(), "parallel workers")
 	solver := flag.String("solver", "z3", "SMT solver binary")
-	timeout := flag.Int("timeout-ms", 10000, "per-query timeout (incremental)")
-	hard := flag.Int("hard-timeout-ms", 120000, "one-shot retry timeout for assertion queries")
+	timeout := flag.Int("timeout-ms", 1500, "per-query timeout (incremental)")
+	hard := flag.Int("hard-timeout-ms", 60000, "one-shot retry timeout for assertion queries")
 	maxSteps := flag.Int("max-steps", 5000000, "instruction budget per path")
 	seed := flag.Int64("seed", 0, "seed")
 	trace := flag.Bool("trace", false, "trace calls")
@@ -79,6 +79,10 @@ func main() {
 			k, v, _ := strings.Cut(kv, "=")
 			var x int64
 			fmt.Sscan(v, &x)
+			if k == "_split" {
+				j.MaxSplit = int(x)
+				continue
+			}
 			j.Params[k] = x
 		}
 		jobs = append(jobs, j)
